@@ -503,6 +503,7 @@ package document
 //@   ensures "accepted-only-with-expected-magic-version-and-digest": result1 == nil ==> envOK(data) && envMagic(data) === magicEvidence() && envVersion(data) == 2
 //@        && envSha(data) === hashF(5, envPayload(data))
 //@   ensures "evidence-objects-are-allocated": result1 == nil && result0.ActiveAuth != nil ==> allocated(result0.ActiveAuth)
+//@        && (len(result0.ActiveAuth.Nonce) > 0 ==> allocated(result0.ActiveAuth.Nonce)) && (len(result0.ActiveAuth.Signature) > 0 ==> allocated(result0.ActiveAuth.Signature))
 //@   ensures fresh(result0)
 //@   assigns nothing
 //@   safety all
@@ -531,6 +532,7 @@ package document
 //@        && (result0.Mf.CardAccess != nil ==> result0.Mf.CardAccess.SecurityInfos != nil)
 //@        && (result0.Mf.Lds1.Sod != nil ==> result0.Mf.Lds1.Sod.SD != nil && result0.Mf.Lds1.Sod.LdsSecurityObject != nil)
 //@   ensures "evidence-objects-are-allocated": result2 == nil && result1.ActiveAuth != nil ==> allocated(result1.ActiveAuth)
+//@        && (len(result1.ActiveAuth.Nonce) > 0 ==> allocated(result1.ActiveAuth.Nonce)) && (len(result1.ActiveAuth.Signature) > 0 ==> allocated(result1.ActiveAuth.Signature))
 //@   ensures fresh(result0) && fresh(result1)
 //@   assigns nothing
 //@   safety all
